@@ -192,32 +192,48 @@ def run(ctx):  # noqa: C901, PLR0912, PLR0915
                f'{fname}: one report part per source MDS, stamped with that MDS and filled with exactly its states', fi=fi)
     dm = repo.func('sdc11073.provider.porttypes.descriptioneventserviceimpl.DescriptionEventService.'
                    'mk_description_modification_report_body')
-    inner = [n for n in ast.walk(dm.node) if isinstance(n, ast.For) and isinstance(n.target, ast.Name)
-             and n.target.id == 'descriptor']
-    ok = len(inner) == 1
-    if ok:
-        body = inner[0].body
-        src = ' ; '.join(unparse(s) for s in body)
-        comp = [s.value for s in body if isinstance(s, ast.Assign) and isinstance(s.value, ast.ListComp)
-                and unparse(s.targets[0]) == 'states']
-        comp += [c.args[0] for s in body for c in ast.walk(s) if isinstance(c, ast.Call) and
-                 unparse(c.func) == 'report_part.State.extend' and c.args and isinstance(c.args[0], ast.ListComp)]
-        sel_ok = any(len(c.generators) == 1 and unparse(c.generators[0].iter) == 'updated_states' and
-                     len(c.generators[0].ifs) == 1 and
-                     unparse(c.generators[0].ifs[0]).replace(' ', '') in
-                     (f'{unparse(c.generators[0].target)}.DescriptorHandle==descriptor.Handle',
-                      f'descriptor.Handle=={unparse(c.generators[0].target)}.DescriptorHandle')
-                     and unparse(c.elt) == unparse(c.generators[0].target) for c in comp)
-        ok = 'report.add_report_part()' in src and 'report_part.Descriptor.append(descriptor)' in src and \
-            'report_part.State.extend(states)' in src and sel_ok and \
-            'report_part.ModificationType = modification_type' in src and \
-            'report_part.ParentDescriptor = descriptor.parent_handle' in src and \
-            'report_part.SourceMds = descriptor.source_mds' in src
+    # by role: P = the local that gets report.add_report_part(); D = the variable of the innermost loop around that statement;
+    # in that loop P gets type, parent and source MDS of D, D itself, and ALL updated states whose DescriptorHandle is D.Handle
+    gdm = cfg_of(dm)
+    ok = False
+    wit = {}
+    mk_part = [n for n, c in gdm.nodes_calling('add_report_part') if n.kind == 'stmt' and isinstance(n.stmt, ast.Assign)
+               and isinstance(n.stmt.targets[0], ast.Name) and n.loops and isinstance(n.loops[-1], ast.For)
+               and isinstance(n.loops[-1].target, ast.Name)]
+    if len(mk_part) == 1:
+        pn = mk_part[0]
+        P, loop = pn.stmt.targets[0].id, pn.loops[-1]
+        D = loop.target.id
+        in_loop = [n for n in gdm.real_nodes() if n.loops and n.loops[-1] is loop and gdm.dominates(pn, n)]
+        stores = {unparse(n.stmt.targets[0]): unparse(n.stmt.value) for n in in_loop
+                  if n.kind == 'stmt' and isinstance(n.stmt, ast.Assign) and unparse(n.stmt.targets[0]).startswith(f'{P}.')}
+        appended = [unparse(c.args[0]) for n in in_loop for c in n.calls()
+                    if unparse(c.func) == f'{P}.Descriptor.append' and c.args]
+        sel_ok = False
+        for n in in_loop:
+            for c in n.calls():
+                if unparse(c.func) == f'{P}.State.extend' and c.args:
+                    v = gdm.symbolic(n, c.args[0])
+                    if isinstance(v, ast.ListComp) and len(v.generators) == 1 and len(v.generators[0].ifs) == 1 and \
+                            isinstance(v.generators[0].target, ast.Name) and unparse(v.elt) == v.generators[0].target.id:
+                        t = v.generators[0].target.id
+                        params = [x.arg for x in dm.node.args.args]
+                        from_param = unparse(v.generators[0].iter) == f'${params.index("updated_states")}' \
+                            if 'updated_states' in params else False
+                        cond = v.generators[0].ifs[0]
+                        d_sym = gdm.symbolic_text(n, ast.Name(id=D, ctx=ast.Load()))
+                        sides = {unparse(cond.left), unparse(cond.comparators[0])} if isinstance(cond, ast.Compare) and \
+                            len(cond.ops) == 1 and isinstance(cond.ops[0], ast.Eq) else set()
+                        sel_ok = from_param and sides == {f'{t}.DescriptorHandle', f'{d_sym}.Handle'}
+        mod_type = stores.get(f'{P}.ModificationType')
+        wit = {'part': P, 'descriptor': D, 'stores': stores, 'appended': appended, 'state selection ok': sel_ok}
+        ok = appended == [D] and sel_ok and mod_type is not None and \
+            stores.get(f'{P}.ParentDescriptor') == f'{D}.parent_handle' and stores.get(f'{P}.SourceMds') == f'{D}.source_mds'
     ctx.ob('C04.R2', 'description report parts', ok,
            'every changed descriptor gets its own part with type, parent, source MDS and ALL updated states whose '
            'DescriptorHandle is that descriptor' if ok else
            'the description modification report does not carry, per descriptor, the complete list of its updated states '
-           '(e.g. several context states of one descriptor)', fi=dm)
+           '(e.g. several context states of one descriptor)', fi=dm, witness=wit)
     outer = [n for n in ast.walk(dm.node) if isinstance(n, ast.For) and isinstance(n.iter, ast.Tuple)]
     kinds = sorted(unparse(e) for n in outer for e in n.iter.elts)
     ok = len(outer) == 1 and len(outer[0].iter.elts) == 3 and \
